@@ -12,21 +12,34 @@ Record fsm_obs := mkFsmObs {
   fo_unprotects : list (N * (N * N * N))      (* env.Unprotect calls *)
 }.
 
+(* one step of a harness history *)
+Inductive hstep : Type :=
+| HEv (e : ev)              (* Send e, then wait until the machine is quiescent *)
+| HGated (e1 e2 : ev).      (* Send e1; while its cleanup handler is held at the gate Send e2; release *)
+
 Record fsm_case := mkFsmCase {
   fc_id : N;
   fc_seed : chan;
-  fc_evs : list ev;
+  fc_evs : list hstep;
   fc_obs : fsm_obs
 }.
 
-Fixpoint run_hist (m : mstate) (es : list ev) (oks : list bool) (outs : list mout)
+Definition gated (m : mstate) (e1 e2 : ev) : mstate * list mout :=
+  let '(m1, o1) := m_step m (LEnq e1) in
+  let '(m2, o2) := m_step m1 LPlan in
+  let '(m3, o3) := m_step m2 (LEnq e2) in
+  settle (settle_fuel m3) m3 (o1 ++ o2 ++ o3).
+
+Fixpoint run_hist (m : mstate) (es : list hstep) (oks : list bool) (outs : list mout)
   : mstate * list bool * list mout :=
   match es with
   | [] => (m, oks, outs)
-  | e :: r =>
+  | HEv e :: r =>
       if known_event (fst e) && negb (m_dead m) then
         let '(m', o) := deliver m e in run_hist m' r (oks ++ [true]) (outs ++ o)
       else run_hist m r (oks ++ [false]) outs
+  | HGated e1 e2 :: r =>
+      let '(m', o) := gated m e1 e2 in run_hist m' r (oks ++ [true; true]) (outs ++ o)
   end.
 
 Definition notifs_of (outs : list mout) : list (EventCode * view) :=
@@ -36,7 +49,7 @@ Definition cleanups_of (outs : list mout) : list (N * N * N) :=
 Definition unprotects_of (outs : list mout) : list (N * (N * N * N)) :=
   flat_map (fun o => match o with OUnprotect p k => [(p, k)] | _ => [] end) outs.
 
-Definition predict (c : chan) (es : list ev) : fsm_obs :=
+Definition predict (c : chan) (es : list hstep) : fsm_obs :=
   let '(m, oks, outs) := run_hist (m_init c) es [] [] in
   mkFsmObs oks (m_chan m) (notifs_of outs) (cleanups_of outs) (unprotects_of outs).
 
